@@ -1651,19 +1651,25 @@ def run(ctx):
             ("IterateKeepsStartDtype", "LayoutIndependent"))
     wd = lambda label: os.path.join(_tlc.WORK, "Solvers-c16-%s-%d" % (label, os.getpid()))
     # the (small) deviation runs are started together with the main run: three JVM starts in sequence cost minutes on a loaded machine
-    pool = concurrent.futures.ThreadPoolExecutor(max_workers=len(devs))
+    # SolverScale.tla (scale dimension of every solver problem, both sides of cuqi.config.MAX_DIM_INV): its own small TLC runs
+    sdevs = (("AbsoluteStop", "ScalingLaw"), ("TransposeReusesFactor", "NormalResidualInv"))
+    pool = concurrent.futures.ThreadPoolExecutor(max_workers=len(devs) + len(sdevs) + 1)
     fut = {dev: pool.submit(ctx.tlc, "Solvers", cfg="Solvers.dev_%s.cfg" % dev, workers=2, timeout=2400, expect_violation=True,
                             workdir=wd(dev)) for dev, _ in devs}
+    sfut = {dev: pool.submit(ctx.tlc, "SolverScale", cfg="SolverScale.dev_%s.cfg" % dev, workers=1, timeout=2400, expect_violation=True,
+                             workdir=wd("scale-" + dev)) for dev, _ in sdevs}
+    sfut["main"] = pool.submit(ctx.tlc, "SolverScale", cfg="SolverScale.%s.cfg" % ctx.tier, workers=2, timeout=2400, workdir=wd("scale-main"))
+    slabels = ["scale-main"] + ["scale-" + d for d, _ in sdevs]
     try:
         res = ctx.tlc("Solvers", cfg="Solvers.%s.cfg" % ctx.tier, workers=16, timeout=3600, workdir=wd("main"),
                       require_actions=["Start", "Iterate", "Solve", "SetOp", "Call"] if ctx.tier == "thorough" else None)
     except BaseException:
-        concurrent.futures.wait(list(fut.values()))
-        for label in ["main"] + [d for d, _ in devs]:                       # nothing of a failed run stays under .work
+        concurrent.futures.wait(list(fut.values()) + list(sfut.values()))
+        for label in ["main"] + [d for d, _ in devs] + slabels:             # nothing of a failed run stays under .work
             _tlc.cleanup(wd(label))
         raise
     finally:
-        concurrent.futures.wait(list(fut.values()))          # no JVM of this run is left behind when the main run fails
+        concurrent.futures.wait(list(fut.values()) + list(sfut.values()))   # no JVM of this run is left behind when the main run fails
         pool.shutdown()
     try:
         ctx.model_must_hold(res, "Solvers")
@@ -1676,10 +1682,37 @@ def run(ctx):
             r2 = fut[dev].result()
             if r2.ok or r2.violated != inv:
                 raise MachineryError("deviation %s does not violate %s on the model (violated=%r): vacuous invariant" % (dev, inv, r2.violated))
+        sres = sfut["main"].result()
+        ctx.model_must_hold(sres, "SolverScale")
+        scale_cases = sorted(sres.cases, key=_sort_key)
+        if set(c["kind"] for c in scale_cases) != {"cgscale", "postscale"}:
+            raise MachineryError("SolverScale emitted kinds %r" % sorted(set(c["kind"] for c in scale_cases)))
+        for dev, inv in sdevs:
+            r2 = sfut[dev].result()
+            if r2.ok or r2.violated != inv:
+                raise MachineryError("deviation %s does not violate %s on SolverScale (violated=%r): vacuous invariant" % (dev, inv, r2.violated))
+            ctx.observations.setdefault("deviations_refuted_by_tlc", {})[dev] = inv
     finally:
-        for label in ["main"] + [d for d, _ in devs]:
+        for f in list(fut.values()) + list(sfut.values()):
+            try:
+                f.result()
+            except BaseException:
+                pass
+        for label in ["main"] + [d for d, _ in devs] + slabels:
             _tlc.cleanup(wd(label))
     counts = _dispatch(ctx, S, cases, ctx.tier == "thorough")
+    from cuqiverif import c16_scale
+    sc_cg, sc_post = c16_scale.run_scale(ctx, S, scale_cases)
+    counts["cgscale"] = sum(1 for c in scale_cases if c["kind"] == "cgscale")
+    counts["postscale"] = sum(1 for c in scale_cases if c["kind"] == "postscale")
+    if not ctx.violations:
+        for kk in ("above/sym", "above/nonsym", "below/sym", "below/nonsym", "tiny"):
+            if not sc_cg.get(kk):
+                raise MachineryError("SolverScale: no returned point for the facet %s (vacuous)" % kk)
+        if not all(sc_post.get(kk) for kk in ("fista", "prox", "lm")):
+            raise MachineryError("SolverScale: kind post replayed nothing for one of fista / prox / lm: %r" % (sc_post,))
+    ex = [c for c in scale_cases if c["kind"] == "cgscale" and c["solver"] == "pcgls" and c["above"] and not c["psym"]]
+    ctx.sample({"case": ex[len(ex) // 2]}, limit=11)
     # lists of different problems, each list in a fresh process (and once more in this one, after everything else)
     procs = [c for c in cases if c["kind"] == "proc"]
     try:
@@ -1750,6 +1783,13 @@ def replay(ctx, case):
             check_proc(ctx, S, [{"kind": "proc", "calls": case["calls"]}], wdir, guard=False)
         finally:
             _tlc.cleanup(wdir)
+    elif case["kind"] in ("cgscale", "postscale"):
+        from cuqiverif import c16_scale
+        if "pair" in case:
+            case = dict(case, sc=case["pair"], scales=[])
+        if "e" in case and case["kind"] == "postscale":
+            case = dict(case, exps=[])
+        c16_scale.run_scale(ctx, S, [case])
     elif case["kind"] == "cg":
         sib = None
         if case["solver"] == "pcgls" and case["shift"] != 0:
